@@ -82,6 +82,8 @@ def default_execute(scn, ctx, timeout=10.0, digests=False):
         if (env.get("config") or {}).get("debug"):
             o["parsed"] = lib.extract_dbg(r["stderr"], "&query = ")
             o["lexems"] = lib.lexems_from_dbg(lib.extract_dbg(r["stderr"], "&self.lexems = "))
+        if run.get("probes"):
+            o["probes"] = [pr in r["stderr"] for pr in run["probes"]]      # is the text named on stderr?
         fmt = run.get("fmt", "list")
         if fmt == "list":
             o["rows"] = lib.split_list(r["stdout"], run.get("ncols", 1))
